@@ -245,17 +245,17 @@ func genRender(t *Tracer, m *Meta, tier string, seed int64) {
 		runRenderCase(t, m, &TrieCase{Keys: keys, Enc: enc, Vals: mkVals(r, "C19", enc, len(keys)), Opt4: o4})
 		m.class("family:" + fam)
 	}
-	for i := 0; i < 6; i++ {
-		c := bigMimicCase(r, "i32")
-		if i%2 == 1 {
-			c = dedupBigCase(r, "i32")
+	for rep := 0; rep < 2; rep++ {
+		o4 := all16[r.Intn(16)]
+		for _, nc := range specialShapes(r, "i32", o4, 3, seed+int64(rep)) {
+			c := nc.C
+			c.Opt4 = o4
+			if nc.Name == "special:dedupbig" {
+				c.Opt4[0] = 1
+			}
+			runRenderCase(t, m, c)
+			m.class(nc.Name)
 		}
-		c.Opt4 = all16[r.Intn(16)]
-		if i%2 == 1 {
-			c.Opt4[0] = 1
-		}
-		runRenderCase(t, m, c)
-		m.class([]string{"special:bigmimic", "special:dedupbig"}[i%2])
 	}
 	for _, keys := range [][]string{{}, {""}, {"a"}, {"", "a"}} {
 		for _, enc := range []string{"i32", "none"} {
